@@ -56,7 +56,8 @@ func (core *JApiCore) getIncludedFilePath(keyword *scanner.Lexeme) (string, *jer
 		return "", requiredParameterNotSpecified(keyword)
 	}
 
-	path := parameter.Value().String()
+	// The file name may be written in quotes like any other parameter.
+	path := parameter.Value().Unquote().String()
 
 	if err := validateIncludeFileName(path); err != nil {
 		return "", incorrectParameter(keyword, path, err.Error())
